@@ -3,6 +3,7 @@ import Pycoin.Proofs.Recover
 import Pycoin.Proofs.RFC6979
 import Pycoin.Proofs.CurveFacts.secp256k1
 import Pycoin.Proofs.CurveFacts.secp256r1
+import Pycoin.Proofs.CurveFacts.Order
 /-!
 C01 — ECDSA: deterministic signatures verify for the signer and for nobody else.  Property theorems; helper
 lemmas in `Proofs/ECDSA.lean` (on top of the C02 refinement of the group law).
@@ -20,7 +21,8 @@ include ok
 /-- `Generator.verify(Q, z, (r, s))`, `z ≠ 0`, `Q` a reduced curve point: never raises and returns `True` exactly when
 `1 ≤ r, s < n` and `x((z/s)•G + (r/s)•Q) mod n = r`; in particular every `r` or `s` outside `[1, n−1]` is rejected,
 and a sum equal to infinity is rejected.  PARTIAL: extra hypothesis `n • Q = ∞` (it holds for every honest key
-`Q = d•G`, and for every curve point if `#E(F_p) = n`, which cannot be proved here). -/
+`Q = d•G`, and for every curve point if `#E(F_p) = n`: proved for secp256k1 and secp256r1, see
+`C01_verify_iff_secp256k1` / `C01_verify_iff_secp256r1` below, which carry no such hypothesis). -/
 theorem C01_verify_iff_partial (bf : Int) (Q : Pt) (hQ : OnCurve c Q) (rQ : Reduced c Q)
     (hQn : (c.n : Int) • toPoint c Q = 0) (z r s : Int) (hz : z ≠ 0) :
     ∃ b, verify c bf Q z r s = .ok b ∧
@@ -71,7 +73,8 @@ theorem C01_sign_eq_first_nonce (genK : Nat → Int → Int → Except Err Int) 
 /-- public-key recovery (`possible_public_pairs_for_signature`) for `1 ≤ r, s < n`, `z ≠ 0`, any `y_parity`: never raises
 and returns only curve points under which the signature verifies.  PARTIAL: extra hypotheses `p ≡ 3 (mod 4)` (every
 Generator asserts it), `r³+ar+b ≠ 0` (no 2-torsion abscissa: true on curves of odd order) and "the curve points with
-abscissa `r` are annihilated by `n`" (automatic when `#E(F_p) = n`, which cannot be proved here). -/
+abscissa `r` are annihilated by `n`" (automatic when `#E(F_p) = n`).  All three are discharged for secp256k1 and
+secp256r1 in `C01_recover_sound_secp256k1` / `C01_recover_sound_secp256r1` below. -/
 theorem C01_recover_sound_partial (h4 : c.p % 4 = 3) (bf bf' z r s : Int) (par : Option Int) (hz : z ≠ 0)
     (hr1 : 1 ≤ r) (hr2 : r < c.n) (hs1 : 1 ≤ s) (hs2 : s < c.n) (hα : alphaOf c r ≠ 0)
     (htors : ∀ y, containsXY c r y = true → (c.n : Int) • toPoint c (some (r, y)) = 0) :
@@ -172,5 +175,60 @@ theorem C01_ecdsaOk_secp256k1 : ECDSAOk secp256k1 :=
 theorem C01_ecdsaOk_secp256r1 : ECDSAOk secp256r1 :=
   ⟨prime_n_secp256r1, by decide +kernel, by decide +kernel, G_on_curve_secp256r1,
     by unfold Reduced basis; decide +kernel, order_G_secp256r1⟩
+
+/-! ### the shipped ECDSA curves, without torsion hypotheses
+
+`#E(F_p) = n` is proved for secp256k1 and secp256r1 (`Proofs/CurveCard.lean`, `Proofs/CurveFacts/Order.lean`: `E` has at
+most `2p + 1 < 3n` points, `n` divides `#E` because `G` has prime order `n`, and `#E = 2n` is excluded because
+`x³ + ax + b` has no root modulo `p` — a generated certificate checked in the kernel).  So `n • Q = ∞` for *every* curve
+point `Q`, and no curve point has `y = 0`: the extra hypotheses of the `_partial` theorems above hold on these curves. -/
+
+/-- `Generator.verify(Q, z, (r, s))` on secp256k1, `z ≠ 0`, `Q` **any** reduced curve point: never raises and returns
+`True` exactly when `1 ≤ r, s < n` and `x((z/s)•G + (r/s)•Q) mod n = r`.  Full: no hypothesis beyond the property's. -/
+theorem C01_verify_iff_secp256k1 (bf : Int) (Q : Pt) (hQ : OnCurve secp256k1 Q) (rQ : Reduced secp256k1 Q)
+    (z r s : Int) (hz : z ≠ 0) :
+    ∃ b, verify secp256k1 bf Q z r s = .ok b ∧
+      (b = true ↔ 1 ≤ r ∧ r < secp256k1.n ∧ 1 ≤ s ∧ s < secp256k1.n ∧
+        xModN secp256k1 (zsm secp256k1 ((z : ZMod secp256k1.n) * (s : ZMod secp256k1.n)⁻¹) (G secp256k1) +
+          zsm secp256k1 ((r : ZMod secp256k1.n) * (s : ZMod secp256k1.n)⁻¹) (toPoint secp256k1 Q)) = some r) :=
+  C01_verify_iff_partial C01_ecdsaOk_secp256k1 bf Q hQ rQ (order_all_secp256k1 _) z r s hz
+
+/-- the same on secp256r1 -/
+theorem C01_verify_iff_secp256r1 (bf : Int) (Q : Pt) (hQ : OnCurve secp256r1 Q) (rQ : Reduced secp256r1 Q)
+    (z r s : Int) (hz : z ≠ 0) :
+    ∃ b, verify secp256r1 bf Q z r s = .ok b ∧
+      (b = true ↔ 1 ≤ r ∧ r < secp256r1.n ∧ 1 ≤ s ∧ s < secp256r1.n ∧
+        xModN secp256r1 (zsm secp256r1 ((z : ZMod secp256r1.n) * (s : ZMod secp256r1.n)⁻¹) (G secp256r1) +
+          zsm secp256r1 ((r : ZMod secp256r1.n) * (s : ZMod secp256r1.n)⁻¹) (toPoint secp256r1 Q)) = some r) :=
+  C01_verify_iff_partial C01_ecdsaOk_secp256r1 bf Q hQ rQ (order_all_secp256r1 _) z r s hz
+
+/-- `verify` cannot tell `s` from `n − s`, for every reduced curve point of secp256k1 (honest key or not) -/
+theorem C01_verify_neg_s_secp256k1 (bf : Int) (Q : Pt) (hQ : OnCurve secp256k1 Q) (rQ : Reduced secp256k1 Q)
+    (z r s : Int) (hz : z ≠ 0) :
+    verify secp256k1 bf Q z r ((secp256k1.n : Int) - s) = verify secp256k1 bf Q z r s :=
+  C01_verify_neg_s C01_ecdsaOk_secp256k1 bf Q hQ rQ (order_all_secp256k1 _) z r s hz
+
+theorem C01_verify_neg_s_secp256r1 (bf : Int) (Q : Pt) (hQ : OnCurve secp256r1 Q) (rQ : Reduced secp256r1 Q)
+    (z r s : Int) (hz : z ≠ 0) :
+    verify secp256r1 bf Q z r ((secp256r1.n : Int) - s) = verify secp256r1 bf Q z r s :=
+  C01_verify_neg_s C01_ecdsaOk_secp256r1 bf Q hQ rQ (order_all_secp256r1 _) z r s hz
+
+/-- public-key recovery (`possible_public_pairs_for_signature`) on secp256k1 for `1 ≤ r, s < n`, `z ≠ 0`, any `y_parity`:
+never raises and returns only curve points under which the signature verifies.  Full: `p ≡ 3 (mod 4)`, "no point with
+`y = 0`" and "every point is annihilated by `n`" are proved for this curve. -/
+theorem C01_recover_sound_secp256k1 (bf bf' z r s : Int) (par : Option Int) (hz : z ≠ 0)
+    (hr1 : 1 ≤ r) (hr2 : r < secp256k1.n) (hs1 : 1 ≤ s) (hs2 : s < secp256k1.n) :
+    ∃ l, possiblePublicPairsForSignature secp256k1 bf z r s par = .ok l ∧
+      ∀ Q ∈ l, OnCurve secp256k1 Q ∧ verify secp256k1 bf' Q z r s = .ok true :=
+  C01_recover_sound_partial C01_ecdsaOk_secp256k1 (by decide +kernel) bf bf' z r s par hz hr1 hr2 hs1 hs2
+    (no_root_secp256k1 _) (fun _ _ => order_all_secp256k1 _)
+
+/-- the same on secp256r1 -/
+theorem C01_recover_sound_secp256r1 (bf bf' z r s : Int) (par : Option Int) (hz : z ≠ 0)
+    (hr1 : 1 ≤ r) (hr2 : r < secp256r1.n) (hs1 : 1 ≤ s) (hs2 : s < secp256r1.n) :
+    ∃ l, possiblePublicPairsForSignature secp256r1 bf z r s par = .ok l ∧
+      ∀ Q ∈ l, OnCurve secp256r1 Q ∧ verify secp256r1 bf' Q z r s = .ok true :=
+  C01_recover_sound_partial C01_ecdsaOk_secp256r1 (by decide +kernel) bf bf' z r s par hz hr1 hr2 hs1 hs2
+    (no_root_secp256r1 _) (fun _ _ => order_all_secp256r1 _)
 
 end Pycoin.Gen.Curves
